@@ -217,6 +217,10 @@ func (x *gen) body(w *world, mod string, depth int) []*sg.Node {
 			if g.Bool("lluser") {
 				ll.OrdBy = "user"
 			}
+			// a state leaf-list may hold the same value several times (RFC 6020 7.7: values are unique in configuration)
+			if g.Chance(1, 3, "llstate") {
+				ll.Config = "false"
+			}
 			out = append(out, ll)
 		default:
 			ch := &sg.Node{Kind: "choice", Name: x.id("ch")}
@@ -262,7 +266,10 @@ func (x *gen) data(w *world, kids []*sg.Node, depth int) []*D {
 			d := &D{Name: n.Name}
 			for i := 0; i < k; i++ {
 				v := w.vals[n.Name].gen()
-				if !seen[v] {
+				if n.Config == "false" && len(d.Vals) > 0 && g.Chance(1, 3, "llrepeat") {
+					v = d.Vals[g.Pick(len(d.Vals), "llrepeatof")]
+				}
+				if !seen[v] || n.Config == "false" {
 					seen[v] = true
 					d.Vals = append(d.Vals, v)
 				}
